@@ -223,7 +223,10 @@ pub fn run(ctx: &Ctx) -> Report {
     }
     // ---- part 3a: clear_frame / update_frame: every RAM command of the call carries exactly one plane ----
     for spec in panels_for(ctx) {
-        for (k, bg) in [(K::Clear, 1u32), (K::Clear, 0), (K::UpdateFrame, 1)] {
+        // every background colour the driver accepts (the fill count may sit in a per-colour branch)
+        let mut combos: Vec<(K, u32)> = (0..spec.color.count()).map(|c| (K::Clear, c)).collect();
+        combos.extend((0..spec.color.count()).map(|c| (K::UpdateFrame, c)));
+        for (k, bg) in combos {
             rep.eval(spec.name);
             let mut rig = Rig::simple(spec);
             let _ = rig.apply(&Op::arg(K::SetBg, bg));
